@@ -27,8 +27,8 @@ BOUNDS = {
     "quick": "strings: every tree with <= 4 operands over + - * /, rendered minimally, fully parenthesised, with odd whitespace and with redundant parentheses, "
              "5 operands over {+,-,*} and over {-,/}; operator API: every tree with <= 3 operands over + - * / max min, repeated operands, "
              "consumption/production wrappers, Quantity/float constants, 4 operands over {+,-,*} and over {-,/,max}",
-    "thorough": "every string with <= 5 operands (15 763 programs) and every API tree with <= 4 operands (1 652); seeded samples (600 each) of 6- and 7-operand strings and "
-                "5-/6-operand API trees (the only sampled element); instances that run out of budget are reported as such",
+    "thorough": "every string with <= 5 operands (15 763 programs) and every API tree with <= 4 operands (1 652); seeded samples of 6-operand (4000) and 7-operand (2000) strings and of "
+                "5-operand (4000) and 6-operand (2000) API trees (the only sampled element); instances that run out of budget are reported as such",
 }
 OUTSIDE = "larger expressions; 3-phase engines; IEEE rounding; several timestamps (C06)"
 BUDGET = {"quick": 600, "thorough": 2000}
@@ -84,15 +84,17 @@ def programs(family, nmax, seed=0):
         for t in fx.shapes(list(range(nmax)), ops):
             for style in (0, 2):
                 out.append(("str", t, fx.render(t, style), nmax))
-    elif family == "str-sample":
+    elif family.startswith("str-sample"):
         rnd = random.Random(seed)
         pool = list(fx.shapes(list(range(nmax)), fx.BIN_STR))
-        for t in rnd.sample(pool, min(600, len(pool))):
+        size = int(family.split(":")[1]) if ":" in family else 600
+        for t in rnd.sample(pool, min(size, len(pool))):
             out.append(("str", t, fx.render(t, rnd.choice((0, 2))), nmax))
-    elif family == "api-sample":
+    elif family.startswith("api-sample"):
         rnd = random.Random(seed)
         pool = list(fx.shapes(list(range(nmax)), fx.BIN_API))
-        for t in rnd.sample(pool, min(600, len(pool))):
+        size = int(family.split(":")[1]) if ":" in family else 600
+        for t in rnd.sample(pool, min(size, len(pool))):
             out.append(("api", t, "", nmax))
     out = [(k, t, (s or fx.show(t)), n) for k, t, s, n in out]
     _cache[key] = out
@@ -158,13 +160,15 @@ def instances(tier):
     seed = int(os.environ.get("VERIF_SEED", "0"))
     out = [Instance("reach:str2", "make", ("str", 2, 0, 4, 0, True), "reachability twin", budget_s=60, validate_every=0)]
     nl = len(programs("api", 2, 0))
-    out.append(Instance("api2-lagged-start", "make", ("api", 2, 0, nl, 0, False, True), f"all {nl} api programs <= 2 operands with streams that begin at different times "
-                        "(0-2 earlier samples per stream)", budget_s=200, validate_every=10, programs=nl, incremental=False))
+    lagged = Instance("api2-lagged-start", "make", ("api", 2, 0, nl, 0, False, True), f"all {nl} api programs <= 2 operands with streams that begin at different times "
+                      "(0-2 earlier samples per stream)", budget_s=900, validate_every=10, programs=nl, incremental=False)
     if tier == "quick":
+        out.append(lagged)
         out += (_chunks("str", 4, 16) + _chunks("api", 3, 16) + _chunks("api-ops:+,-,*", 4, 4) + _chunks("api-ops:-,/,max", 4, 4)
                 + _chunks("str-ops:+,-,*", 5, 8) + _chunks("str-ops:-,/", 5, 4))
     else:
         # every string program with <= 5 operands and every API tree with <= 4 operands (exhaustive), then seeded samples of larger ones
-        out += (_chunks("str", 5, 64) + _chunks("api", 4, 32) + _chunks("str-sample", 6, 8, seed) + _chunks("str-sample", 7, 8, seed)
-                + _chunks("api-sample", 5, 16, seed) + _chunks("api-sample", 6, 8, seed))
+        out += (_chunks("str", 5, 64) + _chunks("api", 4, 32) + _chunks("str-sample:4000", 6, 32, seed) + _chunks("str-sample:2000", 7, 16, seed)
+                + _chunks("api-sample:4000", 5, 32, seed) + _chunks("api-sample:2000", 6, 16, seed))
+        out.append(lagged)
     return out
